@@ -535,3 +535,104 @@ func PredDecode(p PredParams, s []byte) ([]byte, error) {
 	}
 	return s, nil
 }
+
+// LZWEncodeDeferredClear is an LZW encoder which, unlike most, does not send
+// the clear code when its table is full: it goes on for n more codes with the
+// frozen table (ISO 32000-1 7.4.4.2 lets the encoder choose when to clear; a
+// full table simply stays as it is and every code keeps its meaning), then
+// clears and encodes tail normally.  Any sequence of defined codes is a legal
+// code stream while the table is frozen, so the encoder picks those n codes
+// itself -- pick(i, top) returns a code in 0..top except 256, 257; top is the
+// last table entry -- and the data follow from the codes.  The table is
+// limited to 4096 - early entries (with EarlyChange = 1 the code 4095 is never
+// used, as in TIFF).  It returns the encoding and the data it stands for.
+func LZWEncodeDeferredClear(prefix []byte, early, n int, pick func(i, top int) int, tail []byte) (enc, data []byte) {
+	bw := &bitWriter{}
+	bw.write(256, 9)
+	limit := 4096 - early
+	table := map[string]int{}
+	strs := map[int][]byte{}
+	next, emitted := 258, 0
+	width := func() int { return lzwWidth(257+emitted, early) }
+	emit := func(code int) {
+		bw.write(code, width())
+		emitted++
+	}
+	codeOf := func(s []byte) int {
+		if len(s) == 1 {
+			return int(s[0])
+		}
+		return table[string(s)]
+	}
+	str := func(c int) []byte {
+		if c < 256 {
+			return []byte{byte(c)}
+		}
+		return strs[c]
+	}
+	// phase 1: greedy, until the table is full (a longer prefix is cut there)
+	var cur []byte
+	full := false
+	for _, b := range prefix {
+		if full {
+			break
+		}
+		ext := append(append([]byte(nil), cur...), b)
+		if len(cur) == 0 {
+			cur = ext
+			data = append(data, b)
+			continue
+		}
+		data = append(data, b)
+		if _, ok := table[string(ext)]; ok {
+			cur = ext
+			continue
+		}
+		emit(codeOf(cur))
+		table[string(ext)] = next
+		strs[next] = ext
+		next++
+		cur = []byte{b}
+		if next == limit {
+			full = true
+		}
+	}
+	if len(cur) > 0 {
+		emit(codeOf(cur)) // the decoder completes its last entry with this code
+	}
+	if full {
+		// phase 2: n codes with the frozen table
+		for i := 0; i < n; i++ {
+			c := pick(i, next-1)
+			if c == 256 || c == 257 || c < 0 || c >= next {
+				c = next - 1
+			}
+			emit(c)
+			data = append(data, str(c)...)
+		}
+		// phase 3: clear, then the tail
+		bw.write(256, width())
+		rest := LZWEncode(tail, early, 0)
+		// splice: rest starts with its own clear code (9 bits) which we replace by
+		// re-encoding through the bit writer
+		br := &bitReader{s: rest}
+		br.read(9)
+		emitted = 0
+		for {
+			w := lzwWidth(257+emitted, early)
+			c, ok := br.read(w)
+			if !ok {
+				break
+			}
+			bw.write(c, w)
+			emitted++
+			if c == 257 {
+				break
+			}
+		}
+		data = append(data, tail...)
+		return bw.flush(), data
+	}
+	bw.write(257, width())
+	return bw.flush(), data
+}
